@@ -3,6 +3,10 @@ package props
 import (
 	"context"
 	"fmt"
+	"github.com/bufbuild/protocompile/reporter"
+	"google.golang.org/protobuf/proto"
+	"google.golang.org/protobuf/reflect/protodesc"
+	"google.golang.org/protobuf/types/descriptorpb"
 	"strings"
 	"sync"
 	"sync/atomic"
@@ -162,4 +166,146 @@ func TestC16_Partition(t *testing.T) {
 			return c
 		},
 		Check: c16Check})
+}
+
+// ---- direct imports of descriptor-backed files (no AST) ----
+
+type c16DescCase struct {
+	Files   int   // 2-4 files
+	PerFile int   // messages per file
+	Pkgs    []int // package of file k: 0 = p, 1 = p.q
+	// Shared lists the files that also declare message p.Shared (at position SharedAt percent of their message list):
+	// two or more of them in the same package collide
+	Shared   []int
+	SharedAt int
+	Readers  int
+}
+
+func c16DescFile(c c16DescCase, k int) (protoreflect.FileDescriptor, []string, error) {
+	pkg := []string{"p", "p.q"}[c.Pkgs[k]]
+	fd := &descriptorpb.FileDescriptorProto{Name: proto.String(fmt.Sprintf("d%d.proto", k)), Syntax: proto.String("proto3"), Package: proto.String(pkg)}
+	var names []string
+	shared := false
+	for _, s := range c.Shared {
+		shared = shared || s == k
+	}
+	at := c.PerFile * c.SharedAt / 100
+	for i := 0; i < c.PerFile; i++ {
+		if shared && i == at {
+			fd.MessageType = append(fd.MessageType, &descriptorpb.DescriptorProto{Name: proto.String("Shared")})
+		}
+		n := fmt.Sprintf("F%d_M%d", k, i)
+		fd.MessageType = append(fd.MessageType, &descriptorpb.DescriptorProto{Name: proto.String(n), Field: []*descriptorpb.FieldDescriptorProto{{Name: proto.String("x"), Number: proto.Int32(1), Type: descriptorpb.FieldDescriptorProto_TYPE_INT32.Enum(), Label: descriptorpb.FieldDescriptorProto_LABEL_OPTIONAL.Enum(), JsonName: proto.String("x")}}})
+		names = append(names, pkg+"."+n)
+	}
+	if shared && at >= c.PerFile {
+		fd.MessageType = append(fd.MessageType, &descriptorpb.DescriptorProto{Name: proto.String("Shared")})
+	}
+	d, err := protodesc.NewFile(fd, nil)
+	return d, names, err
+}
+
+func c16DescCheck(c c16DescCase, r *ev.Rec) error {
+	descs := make([]protoreflect.FileDescriptor, c.Files)
+	names := make([][]string, c.Files)
+	for k := 0; k < c.Files; k++ {
+		var err error
+		if descs[k], names[k], err = c16DescFile(c, k); err != nil {
+			return fmt.Errorf("generator: %v", err)
+		}
+	}
+	// model: files that declare Shared, grouped by package: all but one of each group must fail
+	perPkg := map[int]int{}
+	for _, s := range c.Shared {
+		perPkg[c.Pkgs[s]]++
+	}
+	wantFail := 0
+	for _, n := range perPkg {
+		if n > 1 {
+			wantFail += n - 1
+		}
+	}
+	syms := &linker.Symbols{}
+	stop := make(chan struct{})
+	var rwg sync.WaitGroup
+	var lookups atomic.Int64
+	for g := 0; g < c.Readers; g++ {
+		rwg.Add(1)
+		go func(g int) {
+			defer rwg.Done()
+			probe := []string{"p", "p.q", "p.Shared", "p.q.Shared", "p.F0_M0", "p.q.F1_M0", "no.such"}
+			for i := g; ; i++ {
+				select {
+				case <-stop:
+					return
+				default:
+				}
+				_ = syms.Lookup(protoreflect.FullName(probe[i%len(probe)]))
+				lookups.Add(1)
+			}
+		}(g)
+	}
+	errs := make([]error, c.Files)
+	start := make(chan struct{})
+	var wg sync.WaitGroup
+	for k := 0; k < c.Files; k++ {
+		wg.Add(1)
+		go func(k int) {
+			defer wg.Done()
+			<-start
+			errs[k] = syms.Import(descs[k], reporter.NewHandler(nil))
+		}(k)
+	}
+	close(start)
+	wg.Wait()
+	close(stop)
+	rwg.Wait()
+	failed := 0
+	for k, e := range errs {
+		if e != nil {
+			failed++
+			isShared := false
+			for _, s := range c.Shared {
+				isShared = isShared || s == k
+			}
+			if !isShared || !strings.Contains(e.Error(), "Shared") {
+				return fmt.Errorf("import of d%d.proto failed with %v, but it collides with nothing (%+v)", k, e, c)
+			}
+		}
+	}
+	if failed != wantFail {
+		return fmt.Errorf("%d concurrent imports of descriptor-backed files failed, %d must fail (one per extra declaration of Shared in a package): errors %v for %+v", failed, wantFail, errs, c)
+	}
+	for k, e := range errs {
+		if e != nil {
+			continue
+		}
+		for _, n := range names[k] {
+			if syms.Lookup(protoreflect.FullName(n)) == nil {
+				return fmt.Errorf("d%d.proto was imported but Lookup(%q) finds nothing (%+v)", k, n, c)
+			}
+		}
+	}
+	r.Case(ev.JSONFP(c), wantFail > 0 && c.Readers > 0, fmt.Sprintf("must-fail=%d", wantFail), fmt.Sprintf("files=%d", c.Files))
+	r.LabelN("lookups-during-imports", int(lookups.Load()))
+	if wantFail > 0 && r.WantSample() {
+		r.Sample(c)
+	}
+	return nil
+}
+
+func TestC16_DescriptorImports(t *testing.T) {
+	ev.Run(t, ev.Spec[c16DescCase]{ID: "C16", Name: "DescriptorImports", Quick: 120, Thorough: 6000,
+		Rule: "2-4 descriptor-backed files (built with protodesc, no AST) of 50-3000 messages each in packages p and p.q, a generated subset of which also declares message Shared at a generated position; all are imported into one table with Symbols.Import from goroutines released together, while 0-3 readers call Lookup for package names (p, p.q), element names and absent names; race detector on; oracle: exactly one import fails per extra declaration of Shared within a package, each failure names Shared, nothing else fails, and every element of a successfully imported file is found afterwards; non-trivial = a collision and readers",
+		Gen: func(t *rapid.T) c16DescCase {
+			c := c16DescCase{Files: 2 + gen.Uniform(t, 3, "files"), PerFile: gen.Pick(t, []int{50, 400, 1500, 3000}, "perfile"), SharedAt: gen.Pick(t, []int{0, 50, 100}, "sharedat"), Readers: gen.Uniform(t, 4, "readers")}
+			for k := 0; k < c.Files; k++ {
+				c.Pkgs = append(c.Pkgs, gen.Pick(t, []int{0, 0, 0, 1}, "pkg"))
+				if gen.Pct(t, 60, "shared") {
+					c.Shared = append(c.Shared, k)
+				}
+			}
+			return c
+		},
+		Check: c16DescCheck})
 }
